@@ -1,12 +1,14 @@
 import Driver.Util
 import Driver.BipSpec
 import Driver.FrameCodecSpec
+import Driver.WsHandshakeSpec
 
 /-! `sonicspec`: the property monitors alone (no model, nothing regenerated from the source). -/
 open Driver
 
 def components : List (String × (Script → Result)) :=
   [("bip", Driver.BipSpec.check),
-   ("codec", Driver.FrameCodecSpec.check)]
+   ("codec", Driver.FrameCodecSpec.check),
+   ("wshandshake", Driver.WsHandshakeSpec.check)]
 
 def main (args : List String) : IO UInt32 := Driver.mainWith components args
